@@ -1055,13 +1055,15 @@ struct MonC16 : Monitor {
         }
         if ((size_t)live != model.size()) w.violate("C16", "lost-session", fmt("%s: table holds %d live sessions, model %zu", ctx, live, model.size()));
     }
+    bool inact_armed = false; uint64_t inact_deadline_s = 0; // model of the mapping engine's inactivity deadline (API walks)
     void on_api(World &w, int, const Op &op, const glue_view &b, const glue_view &a, int64_t ret) override {
         Mac km = api_key_mac((int)op.a[0]);
         uint16_t kg = api_key_gen((int)op.a[0]);
         auto key = std::make_pair(km, kg);
         uint64_t now_s = w.now / 1000;
-        if (op.kind == OP_A_REINIT) { model.clear(); compare(w, a, "A_REINIT"); return; }
+        if (op.kind == OP_A_REINIT) { model.clear(); inact_armed = false; compare(w, a, "A_REINIT"); return; }
         switch (op.kind) {
+        case OP_A_INACT: inact_armed = true; inact_deadline_s = now_s + 30; w.note("c16_inactivity_armed"); break;
         case OP_A_TADD: {
             auto it = model.find(key);
             if (it != model.end()) {
@@ -1090,6 +1092,8 @@ struct MonC16 : Monitor {
         case OP_A_TCLR: model.clear(); w.note("c16_clear"); break;
         case OP_A_TCOMPL: { auto it = model.find(key); if (it != model.end()) { it->second.complete = op.a[1] != 0; w.note("c16_complete_update"); } break; }
         case OP_A_TICK: {
+            // the one tick at or after an armed inactivity deadline empties the table and disarms the deadline; no other tick may
+            if (inact_armed && now_s >= inact_deadline_s) { inact_armed = false; if (!model.empty()) w.note("c16_inactivity_cleared_sessions"); model.clear(); }
             for (auto it = model.begin(); it != model.end();) {
                 if (now_s > it->second.last_s + 60) { it = model.erase(it); w.note("c16_expired"); } else ++it;
             }
